@@ -3,15 +3,15 @@
 # 1. in a scratch worktree of /repo HEAD: patch applies, 161 tests pass, demo fails with / passes without
 # 2. apply to /repo, run ./check <prop> quick for the given properties (default: the target one), undo
 id=$1; m=$2; shift 2; props=${@:-$id}
-src=/tmp/mut/$id.out/$m
+src=${MUTDIR:-/tmp/mut}/$id.out/$m
 wt=/tmp/mutcheck
-out=/root/scratch/evalmut_${id}_${m}.log
+out=/root/scratch/${MUTTAG:-}evalmut_${id}_${m}.log
 : > $out
 git -C /repo worktree remove --force $wt >/dev/null 2>&1
 git -C /repo worktree add -q $wt HEAD || exit 2
 cd $wt
 if ! git apply --3way $src/patch.diff >>$out 2>&1; then echo "$id $m: PATCH-DOES-NOT-APPLY"; git -C /repo worktree remove --force $wt; exit 3; fi
-git diff HEAD > /root/scratch/evalmut_${id}_${m}.patch
+git diff HEAD > /root/scratch/${MUTTAG:-}evalmut_${id}_${m}.patch
 feat=""
 if grep -q "serde" $src/demo.rs; then feat="--features serde"; fi
 t=$(CARGO_NET_OFFLINE=true cargo test --offline 2>&1 | grep -E "^test result" | awk '{p+=$4; f+=$6} END {print p" passed "f" failed"}')
@@ -24,11 +24,11 @@ echo "$id $m: suite[$t] demo_with_patch_rc=$with demo_without_rc=$without"
 # 3. run checks on /repo
 cd /repo || exit 2
 if [ -n "$(git status --porcelain)" ]; then echo "/repo not clean"; exit 2; fi
-git apply /root/scratch/evalmut_${id}_${m}.patch || { echo "apply to /repo failed"; exit 3; }
+git apply /root/scratch/${MUTTAG:-}evalmut_${id}_${m}.patch || { echo "apply to /repo failed"; exit 3; }
 for p in $props; do
   s=$(date +%s)
-  (cd /verif && ./check $p quick) > /root/scratch/evalmut_${id}_${m}_$p.log 2>&1; rc=$?
+  (cd /verif && ./check $p quick) > /root/scratch/${MUTTAG:-}evalmut_${id}_${m}_$p.log 2>&1; rc=$?
   e=$(date +%s)
-  echo "   check $p quick: rc=$rc ($((e-s))s) $(grep -c '^VIOLATION' /root/scratch/evalmut_${id}_${m}_$p.log) violations: $(grep -A1 '^VIOLATION' /root/scratch/evalmut_${id}_${m}_$p.log | grep class= | head -2 | cut -c1-200 | tr '\n' '|')"
+  echo "   check $p quick: rc=$rc ($((e-s))s) $(grep -c '^VIOLATION' /root/scratch/${MUTTAG:-}evalmut_${id}_${m}_$p.log) violations: $(grep -A1 '^VIOLATION' /root/scratch/${MUTTAG:-}evalmut_${id}_${m}_$p.log | grep class= | head -2 | cut -c1-200 | tr '\n' '|')"
 done
 git -C /repo checkout -- . ; git -C /repo status --porcelain | head -3
